@@ -625,3 +625,40 @@ Proof.
   do 2 eexists. split; [reflexivity|]. split; [reflexivity|]. cbv zeta.
   split; [cbn; lia|]. split; [repeat constructor|]. vm_compute. split; reflexivity.
 Qed.
+
+(* ---------------------------------------------------------------------------------------------- *)
+(* the ban / permit decision table at the level of one unsolicited datagram (handle_inbound) *)
+
+Lemma inbound_banned_ip f p ip d now :
+  mem ip (permit_ips p) = false -> has_key ip (ban_ips p) = true ->
+  handle_inbound f p false ip d now = (f, p, DropIpStage).
+Proof. intros M Bn. unfold handle_inbound. rewrite (initial_banned f p ip now M Bn). reflexivity. Qed.
+
+Lemma inbound_permitted_ip f p ip d now :
+  mem ip (permit_ips p) = true -> snd (handle_inbound f p false ip d now) <> DropIpStage.
+Proof.
+  intros M. unfold handle_inbound. rewrite (initial_permit f p ip now M). cbn [negb].
+  destruct d as [[id|]|]; try (cbn; discriminate).
+  destruct (final_pass f p ip id now) as [[f2 p2] ok2]. cbn. destruct ok2; discriminate.
+Qed.
+
+Lemma inbound_banned_node f p ip id now :
+  mem id (permit_nodes p) = false -> has_key id (ban_nodes p) = true ->
+  snd (handle_inbound f p false ip (Some (Some id)) now) = DropIpStage \/
+  snd (handle_inbound f p false ip (Some (Some id)) now) = DropNodeStage.
+Proof.
+  intros M Bn. unfold handle_inbound. pose proof (initial_pass_shape f p ip now) as S.
+  destruct (initial_pass f p ip now) as [[f1 p1] ok1]. destruct S as (_ & _ & _ & Pn & Bnn & _).
+  destruct ok1; cbn [negb]; [|left; reflexivity].
+  rewrite (final_banned f1 p1 ip id now); [right; reflexivity|congruence|congruence].
+Qed.
+
+Lemma inbound_permitted_node f p ip id now :
+  mem id (permit_nodes p) = true ->
+  snd (handle_inbound f p false ip (Some (Some id)) now) <> DropNodeStage.
+Proof.
+  intros M. unfold handle_inbound. pose proof (initial_pass_shape f p ip now) as S.
+  destruct (initial_pass f p ip now) as [[f1 p1] ok1]. destruct S as (_ & _ & _ & Pn & _ & _).
+  destruct ok1; cbn [negb]; [|cbn; discriminate].
+  rewrite (final_permit f1 p1 ip id now); [cbn; discriminate|congruence].
+Qed.
